@@ -56,6 +56,11 @@ SRC = (
     "    r = _mk(2)\n"
     "    r._merge_parent = p1()\n"
     "    return r\n"
+    "TOP = [None]\n"
+    "@m.memento_function(version='1')\n"
+    "def passthrough():\n"
+    "    _trace.append('passthrough')\n"
+    "    return TOP[0]()\n"
 )
 
 
@@ -129,6 +134,73 @@ def _run(K, masks, provs, staging, store):
     finally:
         prog.close()
         sb.close()
+
+
+def _run_passthrough(K, masks, provs, top_prov, staging, store):
+    """A memento function that returns, unchanged, the partition it obtained from another memento function (freshly computed inside,
+    read back from disk, or served from the memory cache): its own stored result has the same keys and values."""
+    kind = STORES[store]
+    sb = Sandbox(kinds=kind)
+    prog = Program("vpc17")
+    try:
+        d = prog.mod.__dict__
+        d.update(InMemoryPartition=InMemoryPartition, OnDiskPartition=OnDiskPartition, KEYS=KEYS, value_for=value_for)
+        prog.exec(SRC)
+        prog.MASKS[:] = masks
+        prog.STAGING[0] = staging
+        fns = [prog.p0, prog.p1, prog.p2]
+        for level in range(K):
+            _prepare_parent(prog, sb, fns[level], provs[level], store)
+        prog.TOP[0] = fns[K]
+        _prepare_parent(prog, sb, fns[K], top_prov, store)
+        expect = overlay(masks, K)
+        first = prog.passthrough()
+        check("passthrough:returned-partition-is-the-overlay", same_contents(contents(first), expect), (sorted(contents(first)), sorted(expect)))
+        n1 = len(prog.trace)
+        second = prog.passthrough()
+        check("passthrough:memoized", len(prog.trace) == n1, list(prog.trace)[n1:])
+        check("passthrough:read-back-has-the-same-keys-and-values", same_contents(contents(second), expect),
+              (sorted(contents(second)), sorted(expect)))
+        cache = getattr(sb.storage(), "_memory_cache", None)
+        if cache is not None:
+            cache.forget_everything()
+            third = prog.passthrough()
+            check("passthrough:from-disk-has-the-same-keys-and-values", same_contents(contents(third), expect),
+                  (sorted(contents(third)), sorted(expect)))
+        for k in expect:
+            check("passthrough:each-key-loadable-on-its-own", eq(second.get(k), expect[k]), k)
+        check("passthrough:first-returned-object-still-usable", same_contents(contents(first), expect), None)
+    finally:
+        prog.close()
+        sb.close()
+
+
+@obligation(
+    "C17.passthrough",
+    covers=("returned-from-disk", "returned-from-cache", "returned-fresh", "merged", "unmerged"),
+    split={"store": [0, 1, 2], "staging": [0, 1], "K": [0, 1]},
+    bounds="a memento function returning unchanged the partition produced by another one (chain length 0 or 1, all presence masks, parent "
+           "provenance {fresh, disk, cache}) which it obtained {freshly computed inside its own body, read back from disk, from the memory "
+           "cache}; staging {in-memory, on-disk}; stores {fs, fs+cache, memory}: what it stores reads back with the same keys and values",
+    variables="choice: masks, parent provenance, provenance of the returned partition, staging, store",
+    budget_s={"quick": 170, "thorough": 600},
+    choice_vars=6,
+)
+def passthrough(m0: int, m1: int, pv0: int, tp: int, K: int, staging: int, store: int):
+    m0 = pick(m0, 8)
+    tp = pick(tp, 3)
+    if K >= 1:
+        m1 = pick(m1, 8)
+        pv0 = pick(pv0, 3)
+    else:
+        assume(m1 == 0 and pv0 == 0)
+    with concrete_region():
+        cached_store = STORES[store].startswith("fs+cache")
+        if (PROVENANCE[pv0] == "cache" or PROVENANCE[tp] == "cache") and not cached_store:
+            assume(False)
+        cover("returned-from-" + PROVENANCE[tp] if PROVENANCE[tp] != "fresh" else "returned-fresh")
+        cover("merged" if K >= 1 else "unmerged")
+        _run_passthrough(K, [m0, m1, 0], [PROVENANCE[pv0], "disk"], PROVENANCE[tp], STAGING[staging], store)
 
 
 @obligation(
